@@ -59,7 +59,103 @@ def lemmas():
     out['refrB'] = L.Lemma('lemma_refracted_snell', [vsq, nsq, ND, eta, sq], [vsq.eq(1), nsq.eq(1), (sq * sq).eq(kk)],
                            [((eta * eta) * vsq - (const(2) * eta) * c * ND + (c * c) * nsq).eq(1), (eta * ND - c * nsq).eq(-sq)],
                            doc='Snell: unit length and normal component -sqrt(k)')
+    # Vec3 slerp: Cauchy-Schwarz on unit vectors, sin(angle) != 0 away from +-1, the length identity
+    uu, vv = SV.params('u', 3), SV.params('v', 3)
+    out['cs3'] = L.Lemma('lemma_unit_dot_bounds3', uu.e + vv.e, [uu.norm2().eq(1), vv.norm2().eq(1)],
+                         [uu.dot(vv).le(1), uu.dot(vv).ge(-1)], doc='Cauchy-Schwarz for unit 3-vectors (via the Lagrange identity)')
+    cc, ss = var('c'), var('s')
+    out['sin_nz'] = L.Lemma('lemma_sin_nonzero', [cc, ss], [cc.gt(-1), cc.lt(1), (ss * ss + cc * cc).eq(1)], [ss.ne(0)],
+                            doc='sin(acos c) != 0 strictly inside (-1, 1)')
+    sA, sB, st, LL = var('sA'), var('sB'), var('st'), var('ll')
+    r = SV([(uu[i] * (sA / st) + vv[i] * (sB / st)) * LL for i in range(3)])
+    out['vslerp_len'] = L.Lemma('lemma_vslerp_length', uu.e + vv.e + [sA, sB, st, LL], [st.ne(0)],
+                                [r.norm2().eq((((sA * sA) * uu.norm2() + (const(2) * sA * sB) * uu.dot(vv) + (sB * sB) * vv.norm2()) / (st * st)) * (LL * LL))],
+                                doc='|(u sA/st + v sB/st) L|^2 = (sA^2|u|^2 + 2 sA sB u.v + sB^2|v|^2)/st^2 * L^2')
+    xa, xb, ma_, mb_ = var('xa'), var('xb'), var('ma'), var('mb')
+    out['vslerp_ends'] = L.Lemma('lemma_vslerp_ends', [xa, xb, ma_, mb_, st], [st.ne(0), ma_.ne(0), mb_.ne(0)],
+                                 [(((xa / ma_) * (st / st) + (xb / mb_) * (ZERO / st)) * (ma_ + ZERO * (mb_ - ma_))).eq(xa),
+                                  (((xa / ma_) * (ZERO / st) + (xb / mb_) * (st / st)) * (ma_ + ONE * (mb_ - ma_))).eq(xb)],
+                                 doc='at factor 0 / 1 the weights are 1, 0 / 0, 1 and the length factor is |from| / |to|')
+    cA, cB = var('cA'), var('cB')
+    vP2, vQ2, vPQ = var('pp'), var('qq'), var('pq')
+    out['vslerp_core'] = L.Lemma('lemma_vslerp_core', [vP2, vQ2, vPQ, sA, cA, sB, cB, st],
+                                 [vP2.eq(1), vQ2.eq(1), vPQ.eq(cA * cB - sA * sB), st.eq(sA * cB + cA * sB), st.ne(0),
+                                  (sA * sA + cA * cA).eq(1), (sB * sB + cB * cB).eq(1)],
+                                 [(((sA * sA) * vP2 + (const(2) * sA * sB) * vPQ + (sB * sB) * vQ2) / (st * st)).eq(1)],
+                                 doc='trigonometric core of slerp: the interpolated direction has unit length')
     return out
+
+
+def slerp_lets():
+    a, b = SV.of(V3, 'from'), SV.of(V3, 'to')
+    ma, mb = var('ma', verus='ma'), var('mb', verus='mb')
+    c = X.sum_([(a[i] / ma) * (b[i] / mb) for i in range(3)])
+    return ('let ma = %s; let mb = %s; let c = %s; let cl = if c < -1real { -1real } else if c > 1real { 1real } else { c }; '
+            'let al = acos_r(cl); let sa = sin_r(al); let t1 = sin_r((1real - factor.v@) * al) / sa; let t2 = sin_r(factor.v@ * al) / sa; '
+            'let ll = ma + factor.v@ * (mb - ma);'
+            % (X.verus(app('sqrt_r', a.norm2())), X.verus(app('sqrt_r', b.norm2())), X.verus(c)))
+
+
+def add_vec3_slerp(u):
+    """Vec3::slerp_unclamped (the GLM formula, stated literally), Vec3::slerp and the Slerp impl"""
+    P = V3.path
+    lets = slerp_lets()
+    ens = ['({ %s res.%s.v@ == ((from.%s.v@ / ma) * t1 + (to.%s.v@ / mb) * t2) * ll })' % (lets, x, x, x) for x in 'xyz']
+    u.take(P, 'impl<T>Vec3<T>', 'slerp_unclamped', C(ensures=ens))
+    lit = 'Vec3 { %s }' % ', '.join('%s: rr(((from.%s.v@ / ma) * t1 + (to.%s.v@ / mb) * t2) * ll)' % (x, x, x) for x in 'xyz')
+    hdr = 'impl<T> Slerp<T> for Vec3<T> where T: Add<T, Output = T> + Real + Clamp + Lerp<T, Output = T>'
+    from xparse import norm
+    u.impl_extra[(P, norm(hdr))] = ('open spec fn slerp_req(from: Self, to: Self, factor: R) -> bool { true }\n'
+                                    'open spec fn slerp_spec(from: Self, to: Self, factor: R) -> Vec3<R> { %s %s }' % (lets, lit))
+    u.take_impl(P, hdr, {'slerp_unclamped': C(ensures=ens)})
+    clamp = 'let factor = rr(if factor.v@ < 0real { 0real } else if factor.v@ > 1real { 1real } else { factor.v@ });'
+    ens2 = ['({ %s %s res.%s.v@ == ((from.%s.v@ / ma) * t1 + (to.%s.v@ / mb) * t2) * ll })' % (clamp, lets, x, x, x) for x in 'xyz']
+    u.take(P, 'impl<T>Vec3<T>', 'slerp', C(ensures=ens2))
+
+
+def add_slerp_theorem(u, lem):
+    a, b = SV.of(V3, 'a'), SV.of(V3, 'b')
+    ma, mb = var('ma', verus='ma'), var('mb', verus='mb')
+    ua = ', '.join('a.%s.v@ / ma' % x for x in 'xyz')
+    ub = ', '.join('b.%s.v@ / mb' % x for x in 'xyz')
+    cexpr = X.verus(X.sum_([(a[i] / app('sqrt_r', a.norm2())) * (b[i] / app('sqrt_r', b.norm2())) for i in range(3)]))
+    na, nb = X.verus(a.norm2()), X.verus(b.norm2())
+    pre = ['%s > 0real' % na, '%s > 0real' % nb, '%s != 1real' % cexpr, '%s != -1real' % cexpr]
+    lines = [
+        '    let ghost ma = sqrt_r(%s);' % na,
+        '    let ghost mb = sqrt_r(%s);' % nb,
+        '    let ghost c = %s;' % X.verus(X.sum_([(a[i] / ma) * (b[i] / mb) for i in range(3)])),
+        '    let ghost th = acos_r(c);',
+        '    let ghost a1 = (1real - f.v@) * th;',
+        '    let ghost a2 = f.v@ * th;',
+        '    let ghost ll = ma + f.v@ * (mb - ma);',
+        '    proof {',
+        '        axiom_sqrt(%s); axiom_sqrt(%s);' % (na, nb),
+        '        assert(ma > 0real) by { if ma == 0real { assert(ma * ma == 0real); } }',
+        '        assert(mb > 0real) by { if mb == 0real { assert(mb * mb == 0real); } }',
+        '        crate::lemma_normalized3(%s, ma); crate::lemma_normalized3(%s, mb);' % (vargs(V3, 'a'), vargs(V3, 'b')),
+        '        crate::lemma_unit_dot_bounds3(%s, %s);' % (ua, ub),
+        '        axiom_acos(c); assert(a1 + a2 == th);',
+        '        axiom_sin_add(a1, a2); axiom_cos_add(a1, a2); axiom_sin_cos(a1); axiom_sin_cos(a2); axiom_sin_cos(th);',
+        '        crate::lemma_sin_nonzero(c, sin_r(th));',
+        '        crate::lemma_vslerp_length(%s, %s, sin_r(a1), sin_r(a2), sin_r(th), ll);' % (ua, ub),
+        '        crate::lemma_vslerp_core(%s, %s, c, sin_r(a1), cos_r(a1), sin_r(a2), cos_r(a2), sin_r(th));' % (
+            X.verus(SV([a[i] / ma for i in range(3)]).norm2()), X.verus(SV([b[i] / mb for i in range(3)]).norm2())),
+        '        axiom_trig_zero();',
+        '        assert((1real - 0real) * th == th); assert(0real * th == 0real); assert((1real - 1real) * th == 0real); assert(1real * th == th);',
+    ] + ['        crate::lemma_vslerp_ends(a.%s.v@, b.%s.v@, ma, mb, sin_r(th));' % (x, x) for x in 'xyz'] + [
+        '    }',
+        '    let r = Vec3::slerp_unclamped(a, b, f);',
+        '    let n = r.magnitude_squared();',
+        '    let r0 = Vec3::slerp_unclamped(a, b, R::zero());',
+        '    let r1 = Vec3::slerp_unclamped(a, b, R::one());',
+        '    let rc = Vec3::slerp(a, b, f);',
+        '    let rt = <Vec3<R> as Slerp<R>>::slerp_unclamped(a, b, f);',
+    ]
+    asserts = ['n.v@ == ll * ll'] + ['r0.%s.v@ == a.%s.v@' % (x, x) for x in 'xyz'] + ['r1.%s.v@ == b.%s.v@' % (x, x) for x in 'xyz']
+    asserts += ['(0real <= f.v@ <= 1real) ==> (%s)' % ' && '.join('rc.%s.v@ == r.%s.v@' % (x, x) for x in 'xyz'),
+                ' && '.join('rt.%s.v@ == r.%s.v@' % (x, x) for x in 'xyz')]
+    u.add(V3.path, thm_fn('thm_vec3_slerp', ['a: Vec3<R>', 'b: Vec3<R>', 'f: R'], pre, '\n'.join(lines) + '\n', asserts, 'C11'))
 
 
 def add_theorems(u, lem):
@@ -135,12 +231,16 @@ def plan(exp, tier):
         for sh in shapes:
             veccore.add_spatial_full(u, sh)
         if nm == 'c11_small':
+            opscore.add_traits(u, ('Lerp', 'Slerp'))
+            opscore.add_float_impls(u, ('Lerp',))
+            add_vec3_slerp(u)
+            add_slerp_theorem(u, lem)
             add_theorems(u, lem)
             for lm in lem.values():
                 u.add_root(lm.verus_text('C11'))
         p.add_unit(nm, u, ['ops', 'vec'])
     p.lemmas += list(lem.values())
-    p.not_decided += ['Vec3 slerp (endpoints, linear interpolation of lengths): not yet under contract',
+    p.not_decided += ['Vec3 slerp at exactly parallel / antiparallel operands (sin(angle) == 0: the code divides by zero there)',
                       'floating-point rounding; behaviour inside the approx tolerance bands beyond what rel_eq_r states',
                       'face_forward at reference.incident == 0 exactly (the code returns self; the property does not say)']
     p.assumptions += ['approx::RelativeEq on the scalar is modelled by pre::rel_eq_r (a == b || |a-b| <= eps || |a-b| <= max(|a|,|b|) * max_relative) with default_epsilon = default_max_relative = eps_r()']
